@@ -83,6 +83,7 @@ type nopanic struct {
 	entryF   map[*ssa.Function]facts
 	stored   map[string]bool // field names stored to (outside fresh literals) in reachable code
 	sites    []*panicSite
+	noWrap   map[*ssa.BinOp]bool // narrow additions proved not to wrap by a dominating relational guard
 	skipPanicsIn func(fn *ssa.Function) bool
 	preCall  func(np *nopanic, fn *ssa.Function, b *ssa.BasicBlock, cl *ssa.Call, add func(ssa.Instruction, string, string, string)) bool
 }
@@ -149,7 +150,7 @@ func localDesc(r ssa.Value, depth int) string {
 			if v == nil {
 				return ""
 			}
-			if c, ok := constIntOf(stripConv(v)); ok {
+			if c, ok := constIntOf(stripConvNP(v)); ok {
 				return fmt.Sprint(c)
 			}
 			return "_"
@@ -175,15 +176,15 @@ func localDesc(r ssa.Value, depth int) string {
 
 // termOf maps an SSA value to an interval term key, or "".
 func termOf(fn *ssa.Function, v ssa.Value) string {
-	v = stripConv(v)
+	v = stripConvNP(v)
 	switch x := v.(type) {
 	case *ssa.Call:
 		if calleeName(&x.Call) == "builtin:len" {
-			r, p := accessPath(stripConv(x.Call.Args[0]))
+			r, p := accessPath(stripConvNP(x.Call.Args[0]))
 			return "len:" + rootKey(fn, r) + "." + strings.Join(p, ".")
 		}
 		if calleeName(&x.Call) == "(common.Integer).Sign" {
-			r, p := accessPath(stripConv(x.Call.Args[0]))
+			r, p := accessPath(stripConvNP(x.Call.Args[0]))
 			if len(p) > 0 || paramIndex(fn, r) >= 0 {
 				return "sign:" + rootKey(fn, r) + "." + strings.Join(p, ".")
 			}
@@ -214,17 +215,17 @@ func termOf(fn *ssa.Function, v ssa.Value) string {
 // termOff maps v to (term, off) with value(v) = value(term) + off: sees through
 // len(x[k:]) = len(x)-k and +/- constants.
 func termOff(fn *ssa.Function, v ssa.Value) (string, int64) {
-	v = stripConv(v)
+	v = stripConvNP(v)
 	if cl, ok := v.(*ssa.Call); ok && calleeName(&cl.Call) == "builtin:len" {
-		if sl, ok := stripConv(cl.Call.Args[0]).(*ssa.Slice); ok && sl.High == nil && sl.Max == nil && sl.Low != nil {
-			if k, isC := constIntOf(stripConv(sl.Low)); isC && arrayLenOfPtr(sl.X.Type()) < 0 {
-				r, p := accessPath(stripConv(sl.X))
+		if sl, ok := stripConvNP(cl.Call.Args[0]).(*ssa.Slice); ok && sl.High == nil && sl.Max == nil && sl.Low != nil {
+			if k, isC := constIntOf(stripConvNP(sl.Low)); isC && arrayLenOfPtr(sl.X.Type()) < 0 {
+				r, p := accessPath(stripConvNP(sl.X))
 				return "len:" + rootKey(fn, r) + "." + strings.Join(p, "."), -k
 			}
 		}
 	}
-	if bo, ok := v.(*ssa.BinOp); ok && (bo.Op == token.ADD || bo.Op == token.SUB) {
-		if c, isC := constIntOf(stripConv(bo.Y)); isC {
+	if bo, ok := v.(*ssa.BinOp); ok && (bo.Op == token.ADD || bo.Op == token.SUB) && !(bo.Op == token.ADD && narrowAddMayWrap(bo)) {
+		if c, isC := constIntOf(stripConvNP(bo.Y)); isC {
 			if t, off := termOff(fn, bo.X); t != "" {
 				if bo.Op == token.ADD {
 					return t, off + c
@@ -248,8 +249,8 @@ func refineFacts(fn *ssa.Function, f facts, cond ssa.Value, outcome bool) {
 	op := bo.Op
 	lt, loff := termOff(fn, bo.X)
 	rt, roff := termOff(fn, bo.Y)
-	lc, lok := constIntOf(stripConv(bo.X))
-	rc, rok := constIntOf(stripConv(bo.Y))
+	lc, lok := constIntOf(stripConvNP(bo.X))
+	rc, rok := constIntOf(stripConvNP(bo.Y))
 	rc, lc = rc-loff, lc-roff
 	apply := func(term string, op token.Token, c int64) {
 		iv := f.get(term)
@@ -343,13 +344,13 @@ func (np *nopanic) factsAt(fn *ssa.Function, b *ssa.BasicBlock) facts {
 // relLess: on every path to b, value v < len(term) (or v < const bound) holds because of
 // a dominating comparison of v itself.
 func (np *nopanic) indexBoundedBy(fn *ssa.Function, b *ssa.BasicBlock, idx ssa.Value, lenTerm string, arrLen int64) bool {
-	idx0 := stripConv(idx)
+	idx0 := stripConvNP(idx)
 	for _, e := range domEdges(b) {
 		bo, ok := e.If.Cond.(*ssa.BinOp)
 		if !ok {
 			continue
 		}
-		x, y := stripConv(bo.X), stripConv(bo.Y)
+		x, y := stripConvNP(bo.X), stripConvNP(bo.Y)
 		op := bo.Op
 		if !e.Outcome {
 			op = map[token.Token]token.Token{token.LSS: token.GEQ, token.LEQ: token.GTR, token.GTR: token.LEQ, token.GEQ: token.LSS}[op]
@@ -465,7 +466,7 @@ func (np *nopanic) computeEntryFacts() {
 					if pi >= len(args) {
 						break
 					}
-					r, p := accessPath(stripConv(args[pi]))
+					r, p := accessPath(stripConvNP(args[pi]))
 					rk := rootKey(caller, r)
 					prefix := rk + "." + strings.Join(p, ".")
 					for k, v := range here {
@@ -479,7 +480,7 @@ func (np *nopanic) computeEntryFacts() {
 						}
 					}
 					// constant / non-negative integer arguments
-					if c, isC := constIntOf(stripConv(args[pi])); isC {
+					if c, isC := constIntOf(stripConvNP(args[pi])); isC {
 						tr[fmt.Sprintf("val:p%d.", pi)] = ival{c, c}
 					} else if isIntegerType(args[pi].Type()) && nonNegative(args[pi]) {
 						tr[fmt.Sprintf("val:p%d.", pi)] = ival{0, math.MaxInt64}
@@ -560,7 +561,7 @@ func arrayLenOfPtr(t types.Type) int64 {
 
 // isRangeIndexOf: idx is the induction value of a `for i := range X` loop whose bound is len(x) for this very x.
 func isRangeIndexOf(idx, x ssa.Value) bool {
-	bo, ok := stripConv(idx).(*ssa.BinOp)
+	bo, ok := stripConvNP(idx).(*ssa.BinOp)
 	if !ok || bo.Op != token.ADD || !ConstInt(1)(bo.Y) {
 		return false
 	}
@@ -601,7 +602,7 @@ func nonNegative(v ssa.Value) bool {
 			}
 		}
 	}
-	v = stripConv(v)
+	v = stripConvNP(v)
 	if c, ok := constIntOf(v); ok {
 		return c >= 0
 	}
@@ -677,7 +678,7 @@ func resultNonNegative(fn *ssa.Function, idx, depth int) bool {
 		}
 		v := retValue(r, idx)
 		if isRejectReturn(fn, r) {
-			if c, isC := constIntOf(stripConv(v)); isC && c >= 0 {
+			if c, isC := constIntOf(stripConvNP(v)); isC && c >= 0 {
 				continue
 			}
 		}
@@ -850,7 +851,7 @@ func condText(fn *ssa.Function, cond ssa.Value, outcome bool) string {
 }
 
 func exprText(fn *ssa.Function, v ssa.Value) string {
-	v = stripConv(v)
+	v = stripConvNP(v)
 	switch x := v.(type) {
 	case *ssa.BinOp:
 		return exprText(fn, x.X) + x.Op.String() + exprText(fn, x.Y)
@@ -896,11 +897,11 @@ func condRefuted(fn *ssa.Function, f facts, cond ssa.Value, outcome bool) bool {
 	}
 	term, c, op := "", int64(0), bo.Op
 	if t, off := termOff(fn, bo.X); t != "" {
-		if k, ok := constIntOf(stripConv(bo.Y)); ok {
+		if k, ok := constIntOf(stripConvNP(bo.Y)); ok {
 			term, c = t, k-off
 		}
 	} else if t, off := termOff(fn, bo.Y); t != "" {
-		if k, ok := constIntOf(stripConv(bo.X)); ok {
+		if k, ok := constIntOf(stripConvNP(bo.X)); ok {
 			term, c = t, k-off
 			op = map[token.Token]token.Token{token.LSS: token.GTR, token.LEQ: token.GEQ, token.GTR: token.LSS, token.GEQ: token.LEQ, token.EQL: token.EQL, token.NEQ: token.NEQ}[op]
 		}
@@ -935,7 +936,7 @@ func condRefuted(fn *ssa.Function, f facts, cond ssa.Value, outcome bool) bool {
 func (np *nopanic) indexSite(fn *ssa.Function, b *ssa.BasicBlock, ins ssa.Instruction, x, idx ssa.Value, add func(ssa.Instruction, string, string, string)) {
 	arr := arrayLenOfPtr(x.Type())
 	detail := describeAccess(fn, x) + "[" + exprText(fn, idx) + "]"
-	if c, ok := constIntOf(stripConv(idx)); ok {
+	if c, ok := constIntOf(stripConvNP(idx)); ok {
 		if arr >= 0 {
 			if c >= 0 && c < arr {
 				return // constant index into a fixed array: never panics (not even recorded)
@@ -977,7 +978,7 @@ func (np *nopanic) indexSite(fn *ssa.Function, b *ssa.BasicBlock, ins ssa.Instru
 
 // lenMinusK: idx = len(x) - k with k >= 1 constant and len(x) >= k on every path.
 func lenMinusK(np *nopanic, fn *ssa.Function, b *ssa.BasicBlock, idx, x ssa.Value) bool {
-	bo, ok := stripConv(idx).(*ssa.BinOp)
+	bo, ok := stripConvNP(idx).(*ssa.BinOp)
 	if !ok || bo.Op != token.SUB {
 		return false
 	}
@@ -985,7 +986,7 @@ func lenMinusK(np *nopanic, fn *ssa.Function, b *ssa.BasicBlock, idx, x ssa.Valu
 	if !isC || k < 1 {
 		return false
 	}
-	ln, ok := stripConv(bo.X).(*ssa.Call)
+	ln, ok := stripConvNP(bo.X).(*ssa.Call)
 	if !ok || calleeName(&ln.Call) != "builtin:len" || !(ln.Call.Args[0] == x || sameAccess(ln.Call.Args[0], x)) {
 		return false
 	}
@@ -999,7 +1000,7 @@ func sortComparatorIndex(fn *ssa.Function, idx, x ssa.Value) bool {
 	if fn.Parent() == nil {
 		return false
 	}
-	if _, ok := stripConv(idx).(*ssa.Parameter); !ok {
+	if _, ok := stripConvNP(idx).(*ssa.Parameter); !ok {
 		return false
 	}
 	r, _ := accessPath(x)
@@ -1044,7 +1045,7 @@ func madeWithLen(x ssa.Value) int64 {
 
 // boundedByMask: idx = y % N, y & (N-1) with N <= arr, or a byte/uint8 index into an array of >= 256.
 func boundedByMask(idx ssa.Value, arr int64) bool {
-	v := stripConv(idx)
+	v := stripConvNP(idx)
 	if bo, ok := v.(*ssa.BinOp); ok {
 		if c, isC := constIntOf(bo.Y); isC {
 			if bo.Op == token.REM && c > 0 && c <= arr && nonNegative(bo.X) {
@@ -1068,7 +1069,7 @@ func boundedByMask(idx ssa.Value, arr int64) bool {
 
 // forLoopBounded: idx is a phi of a `for i := k; i < len(x); i++` loop over this x.
 func forLoopBounded(idx, x ssa.Value) bool {
-	ph, ok := stripConv(idx).(*ssa.Phi)
+	ph, ok := stripConvNP(idx).(*ssa.Phi)
 	if !ok {
 		return false
 	}
@@ -1078,10 +1079,10 @@ func forLoopBounded(idx, x ssa.Value) bool {
 		return false
 	}
 	cmp, ok := iff.Cond.(*ssa.BinOp)
-	if !ok || cmp.Op != token.LSS || stripConv(cmp.X) != ssa.Value(ph) {
+	if !ok || cmp.Op != token.LSS || stripConvNP(cmp.X) != ssa.Value(ph) {
 		return false
 	}
-	ln, ok := stripConv(cmp.Y).(*ssa.Call)
+	ln, ok := stripConvNP(cmp.Y).(*ssa.Call)
 	if !ok || calleeName(&ln.Call) != "builtin:len" {
 		return false
 	}
@@ -1099,7 +1100,7 @@ func forLoopBounded(idx, x ssa.Value) bool {
 
 // sameLenSlices: idx ranges over slice A and x was made with len(A) (make([]T, len(A))).
 func sameLenSlices(np *nopanic, fn *ssa.Function, b *ssa.BasicBlock, idx, x ssa.Value) bool {
-	bo, ok := stripConv(idx).(*ssa.BinOp)
+	bo, ok := stripConvNP(idx).(*ssa.BinOp)
 	if !ok || !isRangeIdx(bo) {
 		return false
 	}
@@ -1122,7 +1123,7 @@ func sameLenSlices(np *nopanic, fn *ssa.Function, b *ssa.BasicBlock, idx, x ssa.
 	if !ok {
 		return false
 	}
-	l2, ok := stripConv(mk.Len).(*ssa.Call)
+	l2, ok := stripConvNP(mk.Len).(*ssa.Call)
 	return ok && calleeName(&l2.Call) == "builtin:len" && (l2.Call.Args[0] == ranged || sameAccess(l2.Call.Args[0], ranged))
 }
 
@@ -1134,10 +1135,10 @@ func (np *nopanic) sliceSite(fn *ssa.Function, b *ssa.BasicBlock, x *ssa.Slice, 
 	lo, hi := int64(0), int64(-1)
 	loC, hiC := true, x.High == nil
 	if x.Low != nil {
-		lo, loC = constIntOf(stripConv(x.Low))
+		lo, loC = constIntOf(stripConvNP(x.Low))
 	}
 	if x.High != nil {
-		hi, hiC = constIntOf(stripConv(x.High))
+		hi, hiC = constIntOf(stripConvNP(x.High))
 	}
 	detail := describeAccess(fn, x.X) + "[" + boundText(fn, x.Low) + ":" + boundText(fn, x.High) + "]"
 	why := ""
@@ -1166,12 +1167,12 @@ func (np *nopanic) sliceSite(fn *ssa.Function, b *ssa.BasicBlock, x *ssa.Slice, 
 		if why == "" {
 			// P[a : len(P)-k]  needs len >= a+k ;  P[len(P)-k:] needs len >= k
 			lenK := func(v ssa.Value) (int64, bool) {
-				bo, ok := stripConv(v).(*ssa.BinOp)
+				bo, ok := stripConvNP(v).(*ssa.BinOp)
 				if !ok || bo.Op != token.SUB {
 					return 0, false
 				}
 				k, isC := constIntOf(bo.Y)
-				ln, isL := stripConv(bo.X).(*ssa.Call)
+				ln, isL := stripConvNP(bo.X).(*ssa.Call)
 				if !isC || !isL || calleeName(&ln.Call) != "builtin:len" || !sameAccess(ln.Call.Args[0], x.X) {
 					return 0, false
 				}
@@ -1190,7 +1191,7 @@ func (np *nopanic) sliceSite(fn *ssa.Function, b *ssa.BasicBlock, x *ssa.Slice, 
 		}
 		if why == "" && x.High != nil && loC && lo == 0 {
 			// s[:n] with n == len(s) or n <= len by dominating comparison
-			if ln, ok := stripConv(x.High).(*ssa.Call); ok && calleeName(&ln.Call) == "builtin:len" && sameAccess(ln.Call.Args[0], x.X) {
+			if ln, ok := stripConvNP(x.High).(*ssa.Call); ok && calleeName(&ln.Call) == "builtin:len" && sameAccess(ln.Call.Args[0], x.X) {
 				why = "upper bound is len of the same slice"
 			}
 			if mk := madeWithLen(x.X); mk >= 0 && hiC && hi <= mk {
@@ -1216,16 +1217,31 @@ func boundText(fn *ssa.Function, v ssa.Value) string {
 
 // sliceBoundedBy: a dominating edge asserts bound <= len(term) (i.e. len < bound rejects).
 func (np *nopanic) sliceBoundedBy(fn *ssa.Function, b *ssa.BasicBlock, bound ssa.Value, lenTerm string) bool {
-	b0 := stripConv(bound)
+	b0 := stripConvNP(bound)
 	if c, ok := constIntOf(b0); ok {
 		return np.factsAt(fn, b).get(lenTerm).lo >= c
+	}
+	// bound = k + S (k constant): proved by a dominating `len(P[k:]) >= S`, i.e. len(P)-k >= S.
+	// The sum cannot wrap in a >=32-bit type because S <= len(P)-k < 2^31 (slice-length assumption).
+	var sumK int64 = -1
+	var sumS ssa.Value
+	var sumBo *ssa.BinOp
+	if ad, ok := b0.(*ssa.BinOp); ok && ad.Op == token.ADD {
+		if k, isC := constIntOf(stripConvNP(ad.X)); isC && k >= 0 {
+			sumK, sumS, sumBo = k, stripConvNP(ad.Y), ad
+		} else if k, isC := constIntOf(stripConvNP(ad.Y)); isC && k >= 0 {
+			sumK, sumS, sumBo = k, stripConvNP(ad.X), ad
+		}
+		if _, _, bits := intShape(ad.Type()); bits < 32 {
+			sumK = -1
+		}
 	}
 	for _, e := range domEdges(b) {
 		bo, ok := e.If.Cond.(*ssa.BinOp)
 		if !ok {
 			continue
 		}
-		x, y := stripConv(bo.X), stripConv(bo.Y)
+		x, y := stripConvNP(bo.X), stripConvNP(bo.Y)
 		op := bo.Op
 		if !e.Outcome {
 			op = map[token.Token]token.Token{token.LSS: token.GEQ, token.LEQ: token.GTR, token.GTR: token.LEQ, token.GEQ: token.LSS}[op]
@@ -1237,15 +1253,25 @@ func (np *nopanic) sliceBoundedBy(fn *ssa.Function, b *ssa.BasicBlock, bound ssa
 		if termOf(fn, y) == lenTerm && sameValueExpr(x, b0) && (op == token.LEQ || op == token.LSS) {
 			return true
 		}
+		if sumK >= 0 {
+			if t, off := termOff(fn, x); t == lenTerm && off == -sumK && sameValueExpr(y, sumS) && (op == token.GEQ || op == token.GTR) {
+				np.noWrap[sumBo] = true
+				return true
+			}
+			if t, off := termOff(fn, y); t == lenTerm && off == -sumK && sameValueExpr(x, sumS) && (op == token.LEQ || op == token.LSS) {
+				np.noWrap[sumBo] = true
+				return true
+			}
+		}
 	}
 	return false
 }
 
 func (np *nopanic) lowLEHigh(fn *ssa.Function, b *ssa.BasicBlock, lo, hi ssa.Value) bool {
-	l, h := stripConv(lo), stripConv(hi)
+	l, h := stripConvNP(lo), stripConvNP(hi)
 	// hi = lo + k (k >= 0)
-	if bo, ok := h.(*ssa.BinOp); ok && bo.Op == token.ADD {
-		if sameValueExpr(stripConv(bo.X), l) && nonNegative(bo.Y) || sameValueExpr(stripConv(bo.Y), l) && nonNegative(bo.X) {
+	if bo, ok := h.(*ssa.BinOp); ok && bo.Op == token.ADD && (!narrowAddMayWrap(bo) || np.noWrap[bo]) {
+		if sameValueExpr(stripConvNP(bo.X), l) && nonNegative(bo.Y) || sameValueExpr(stripConvNP(bo.Y), l) && nonNegative(bo.X) {
 			return true
 		}
 	}
@@ -1256,7 +1282,7 @@ func (np *nopanic) lowLEHigh(fn *ssa.Function, b *ssa.BasicBlock, lo, hi ssa.Val
 
 // sameValueExpr: syntactically equal pure integer expressions (no CSE in go/ssa).
 func sameValueExpr(a, b ssa.Value) bool {
-	a, b = stripConv(a), stripConv(b)
+	a, b = stripConvNP(a), stripConvNP(b)
 	if a == b {
 		return true
 	}
@@ -1307,15 +1333,15 @@ func (np *nopanic) stdCallSite(fn *ssa.Function, b *ssa.BasicBlock, cl *ssa.Call
 					why = "fixed-size buffer"
 				}
 			} else if s.High != nil && s.Low != nil {
-				lc, lok := constIntOf(stripConv(s.Low))
-				hc, hok := constIntOf(stripConv(s.High))
+				lc, lok := constIntOf(stripConvNP(s.Low))
+				hc, hok := constIntOf(stripConvNP(s.High))
 				if lok && hok && hc-lc >= int64(need) {
 					why = "constant-width window (bounds checked as a slice site)"
 				} else if np.lowPlus(s.Low, s.High, int64(need)) {
 					why = "window of the needed width (bounds checked as a slice site)"
 				}
 			} else if s.High != nil && s.Low == nil {
-				if hc, ok := constIntOf(stripConv(s.High)); ok && hc >= int64(need) {
+				if hc, ok := constIntOf(stripConvNP(s.High)); ok && hc >= int64(need) {
 					why = "constant-width window (bounds checked as a slice site)"
 				}
 			}
@@ -1345,7 +1371,7 @@ func (np *nopanic) stdCallSite(fn *ssa.Function, b *ssa.BasicBlock, cl *ssa.Call
 }
 
 func (np *nopanic) lowPlus(lo, hi ssa.Value, need int64) bool {
-	h := stripConv(hi)
+	h := stripConvNP(hi)
 	if bo, ok := h.(*ssa.BinOp); ok && bo.Op == token.ADD {
 		if c, isC := constIntOf(bo.Y); isC && c >= need && sameValueExpr(bo.X, lo) {
 			return true
@@ -1448,6 +1474,7 @@ func loadNopanicTable(id string) map[string]*tableEntry {
 // run executes the whole analysis and records obligations.
 func (np *nopanic) run(id string, maybeNil func(fn *ssa.Function) func(v ssa.Value) string) {
 	c := np.c
+	np.noWrap = map[*ssa.BinOp]bool{}
 	np.walk()
 	np.collectStored()
 	np.computeEntryFacts()
